@@ -72,6 +72,18 @@ func spoilsOf(line []byte, full bool, r rng) []spoil {
 	u := cp()
 	u[0], u[1] = '7', '7'
 	out = append(out, spoil{u, "unknown record type 77", "unknown-type"})
+	// type bytes that are no digits but share bits with the digits of a legal type (a decoder that masks or
+	// folds the type bytes takes them for the legal type)
+	for _, alias := range []struct {
+		at  int
+		add byte
+	}{{0, 0x10}, {0, 0x20}, {0, 0x30}, {1, 0x10}, {1, 0x30}} {
+		if len(line) >= 2 && line[alias.at] >= '0' && line[alias.at] <= '9' {
+			a := cp()
+			a[alias.at] += alias.add
+			out = append(out, spoil{a, fmt.Sprintf("unknown record type %q (type byte %d raised by 0x%02x)", string(a[:2]), alias.at+1, alias.add), "unknown-type"})
+		}
+	}
 	L := layoutOf(tagToGo[string(line[:2])])
 	if L == nil {
 		return out
